@@ -466,7 +466,46 @@ func bucket(n int) int {
 
 // CheckC08 walks random forwarder admin histories, comparing queries with the model after every
 // message and probing every calibrated destination.
+// bulkBatchesC08: the batch limit is the same in both directions: what one message paused, one
+// message unpauses; a protocol pause/unpause cycle leaves the counterparty pauses alone.
+func bulkBatchesC08(e *fw.Env, l *Lab) {
+	w := l.W
+	ctx, _ := l.Base.CacheContext()
+	pm := NewPauseModel()
+	var hist []AdminMsg
+	ids := func(n, from int) []string {
+		var out []string
+		for i := 0; i < n; i++ {
+			out = append(out, fmt.Sprint(from+i))
+		}
+		return out
+	}
+	auth := w.Authority.String()
+	steps := []AdminMsg{
+		{Kind: "pause-cc", Proto: "PROTOCOL_CCTP", IDs: ids(100, 2000), Signer: auth, Expect: "ok"},
+		{Kind: "pause-cc", Proto: "PROTOCOL_CCTP", IDs: ids(101, 3000), Signer: auth, Expect: "fail", Why: "more than 100 ids"},
+		{Kind: "pause-protocol", Proto: "PROTOCOL_CCTP", Signer: auth, Expect: "ok"},
+		{Kind: "pause-cc", Proto: "PROTOCOL_CCTP", IDs: ids(3, 5000), Signer: auth, Expect: "ok"},
+		{Kind: "unpause-protocol", Proto: "PROTOCOL_CCTP", Signer: auth, Expect: "ok"},
+		{Kind: "unpause-cc", Proto: "PROTOCOL_CCTP", IDs: ids(101, 2000), Signer: auth, Expect: "fail", Why: "more than 100 ids"},
+		{Kind: "unpause-cc", Proto: "PROTOCOL_CCTP", IDs: ids(100, 2000), Signer: auth, Expect: "ok"},
+		{Kind: "unpause-cc", Proto: "PROTOCOL_CCTP", IDs: ids(3, 5000), Signer: auth, Expect: "ok"},
+		{Kind: "pause-cc", Proto: "PROTOCOL_HYPERLANE", IDs: ids(99, 1), Signer: auth, Expect: "ok"},
+		{Kind: "unpause-cc", Proto: "PROTOCOL_HYPERLANE", IDs: ids(99, 1), Signer: auth, Expect: "ok"},
+	}
+	for _, m := range steps {
+		if !runAdmin(e, "C08", l, ctx, pm, m, &hist) {
+			return
+		}
+	}
+	probeForwarding(e, "C08", l, ctx, pm, false, "bulk batches")
+	e.Res.Sig("bulk-batches")
+}
+
 func CheckC08(e *fw.Env, l *Lab) {
+	if e.Shard == 2%e.Shards {
+		bulkBatchesC08(e, l)
+	}
 	walks := e.N(40, 1500)
 	for wk := 0; wk < walks; wk++ {
 		ctx, _ := l.Base.CacheContext()
